@@ -6,6 +6,7 @@
    laid out from 0, and the total length labelled k (`len_of k`) equals p_k.  nonneg p: entries >= 0
    (zeros and ties allowed); any length >= 1. *)
 From Coq Require Import List Arith ZArith QArith Permutation.
+From RV Require Import Base.Corr.
 From RV Require Import Base.QB Gen.GenPairing Model.Pairing Model.StepLaw Model.Bst Model.Alias Model.Huffman Model.Table
   Model.StatesManager Model.Inversion Model.InversionOrig Model.BstAdapted Model.Factory Model.Stateful Model.BstAdaptedNd
   Proofs.C02_StepLaw Proofs.C02_Bst Proofs.C02_Inversion Proofs.C02_Huffman Proofs.C02_BstAdapted Proofs.C02_Alias
@@ -164,24 +165,45 @@ Theorem C02_bstadaptednd_bucket_law : forall (bm : box -> Q) (B : Z),
                           /\ (cp <= bm res -> locate_r 0 (bucket_segs bm B res) cp = Some (enc B c))).
 Proof. exact sample_one_bucket_law. Qed.
 
-(* bucket stage + bisection composed.  FULL statement (not proved): for the buckets of _pre_computation, including those served
-   from the cached cumulative vectors, nd_sample u = cell c iff u lies in an interval of length bm(cell c), every non-origin
-   cell exactly once.  PROVED here: any non-empty list of buckets none of which is served from the cache (grids with
-   d * n >= 10001 points, or the non-axis buckets): searchsorted on the cumulative bucket probabilities + residual +
-   sample_one_bucket = locate_r over the concatenated bucket intervals.  (The cached vectors: C02_bstadaptednd_axis_total.) *)
-Theorem C02_bstadaptednd_law_partial : forall (bm : box -> Q) (B : Z),
-  (forall b, wfb B b -> 0 <= bm b) ->
-  (forall b k m, wfb B b -> (k < length b)%nat -> (fst (nth k b (0, 0)%Z) <= m < snd (nth k b (0, 0)%Z))%Z ->
+(* the n-d sampler on the REAL bucket list of _pre_computation (itertools.product of the per-axis pieces minus the origin
+   cell), buckets served from the cached cumulative vectors (searchsorted (axis_cum b) = locate_r (axis_segs b), repaired
+   with min(., len-1)) as well as by the bisection: for a non-negative box mass additive under the split of one axis,
+   nd_sample u = cell c iff u lies in an interval of length bm(cell c); the cell is in the grid and is not the origin;
+   every non-origin cell of the grid exactly once (the buckets partition them) *)
+Theorem C02_bstadaptednd_law : forall (bm : box -> Q) (d : nat) (n o : Z),
+  (forall b, wfb n b -> 0 <= bm b) ->
+  (forall b k m, wfb n b -> (k < length b)%nat -> (fst (nth k b (0, 0)%Z) <= m < snd (nth k b (0, 0)%Z))%Z ->
      bm b == bm (upd b k (fst (nth k b (0, 0)%Z), m)) + bm (upd b k ((m + 1)%Z, snd (nth k b (0, 0)%Z)))) ->
-  forall (d : nat) (n o : Z) (bs : list box), bs <> [] -> Forall (wfb B) bs ->
-  (forall b, In b bs -> is_axis_bucket d n b = false) ->
-  let segs := concat (map (bucket_segs bm B) bs) in
-  total segs == qsum (map bm bs)
-  /\ forall u, u <= qsum (map bm bs) ->
-       exists b cell, In b bs /\ InBox cell b
-                      /\ nd_sample_with bm d n o bs u = Some (map (fun c => (c - o)%Z) cell)
-                      /\ locate_r 0 segs u = Some (enc B cell).
-Proof. exact nd_sample_compose. Qed.
+  (1 <= o)%Z /\ (o + 1 <= n - 1)%Z -> (1 <= d)%nat ->
+  total (nd_segs_all bm d n o) == qsum (map bm (buckets d n o))
+  /\ seg_nonneg (nd_segs_all bm d n o)
+  /\ (forall u, u <= qsum (map bm (buckets d n o)) ->
+        exists cell, length cell = d /\ Forall (fun x => (0 <= x < n)%Z) cell /\ cell <> repeat o d
+                     /\ nd_sample bm d n o u = Some (map (fun c => (c - o)%Z) cell)
+                     /\ locate_r 0 (nd_segs_all bm d n o) u = Some (enc n cell))
+  /\ (forall c, length c = d -> Forall (fun x => (0 <= x < n)%Z) c -> c <> repeat o d ->
+        len_of (enc n c) (nd_segs_all bm d n o) == bm (cellbox c)).
+Proof. exact nd_sample_law. Qed.
+
+(* the lru cache of the n-d tree is a READ cache: with any eviction policy that only drops entries, any sequence of
+   sample_one_bucket calls on one instance returns what the cache-free function returns *)
+Theorem C02_bstadaptednd_cache_history_free : forall (bm : box -> Q) (evict : ndcache -> ndcache),
+  (forall c x, In x (evict c) -> In x c) ->
+  forall (res : box) (us : list Q),
+    run_st (fun c u => sample_one_bucket_c bm evict res c u) [] us = map (sample_one_bucket bm res) us.
+Proof. exact nd_cache_history_free. Qed.
+
+(* the real bucket list of a 5 x 5 grid: 8 buckets, 4 of them served from the cached vectors (so the cached branch of
+   C02_bstadaptednd_law is exercised), and the model computes on an additive box mass (uniform cell table) *)
+Example C02_bstadaptednd_nonvacuous :
+  let tab := map (fun c => (c, 1 # 24)) (filter (fun c => negb (zlist_eqb c [2; 2]%Z))
+                 (flat_map (fun i => map (fun j => [i; j]) [0; 1; 2; 3; 4]%Z) [0; 1; 2; 3; 4]%Z)) in
+  length (buckets 2 5 2) = 8%nat
+  /\ map (is_axis_bucket 2 5) (buckets 2 5 2) = [true; true; true; false; false; true; false; false]
+  /\ qsum (map (table_bm tab) (buckets 2 5 2)) == 1
+  /\ map (nd_sample (table_bm tab) 2 5 2) [1 # 48; 1 # 4; 1 # 2; 9 # 10; 1]
+     = [Some [0; -2]; Some [-1; 0]; Some [-2; 2]; Some [1; 2]; Some [2; 2]]%Z.
+Proof. vm_compute. repeat split. Qed.
 
 (* F-C02-6 (recorded finding, current tree): the right-closed samplers send u = 0 to the first enumerated state
    even when its probability is zero *)
@@ -235,7 +257,9 @@ Print Assumptions C02_factory_never_origin.
 Print Assumptions C02_history_free_table_driven.
 Print Assumptions C02_bstadapted1d_cache_history_free.
 Print Assumptions C02_bstadaptednd_bucket_law.
-Print Assumptions C02_bstadaptednd_law_partial.
+Print Assumptions C02_bstadaptednd_law.
+Print Assumptions C02_bstadaptednd_cache_history_free.
+Print Assumptions C02_bstadaptednd_nonvacuous.
 Print Assumptions C02_inversion_zero_uniform_refuted.
 Print Assumptions C02_bstadapted1d_zero_uniform_refuted.
 Print Assumptions C02_inversion_overflow_orig.
